@@ -7,9 +7,16 @@ import lib_fsm
 import vlib
 
 AREA = "Fsm"
-THEOREMS = []
+THEOREMS = [("Arc.Fsm.PropsC23", "C23_writer_consistent_guarded"),
+            ("Arc.Fsm.PropsC23", "C23_writer_consistent_meaning"),
+            ("Arc.Fsm.PropsC23", "C23_readd_keeps_writer_state_guarded"),
+            ("Arc.Fsm.PropsC23", "C23_rbac_refs_ok"),
+            ("Arc.Fsm.PropsC23", "C23_promote_unknown_refuted"),
+            ("Arc.Fsm.PropsC23", "C23_two_primaries_refuted"),
+            ("Arc.Fsm.PropsC23", "C23_readd_primary_refuted"),
+            ("Arc.Fsm.PropsC23", "C23_remove_primary_refuted")]
 MODULES = ["Arc.Fsm.PropsC23"]
-EXTRA = ["theories/Fsm/Tie.vo"]
+EXTRA = ["theories/Fsm/Tie.vo", "theories/Fsm/PropsC23.vo"]
 TIE_NAME = lib_fsm.TIE_NAME["C23"]
 FAMILIES = ["node", "node", "node", "rbac", "rbac", "node_rbac"]
 
@@ -18,8 +25,32 @@ def warm():
     lib_fsm.run_impl("C23", [], "warm")
 
 
+def join_payload_fields():
+    """The NodeInfo literal that coordinator.handleJoinRequest (and the self-registration of the
+    bootstrap leader) proposes through AddNode, re-read from the current source."""
+    import os
+    import re
+    src = open(os.path.join(vlib.REPO, "internal/cluster/coordinator.go")).read()
+    out = {}
+    for fn in ("handleJoinRequest", "registerSelfInFSMWhenLeader"):
+        m = re.search(r"^func \(c \*Coordinator\) %s\(" % fn, src, re.M)
+        if not m:
+            raise vlib.TieBroken("coordinator.%s not found" % fn)
+        end = src.find("\nfunc ", m.end())
+        body = src[m.start():end if end > 0 else len(src)]
+        lit = re.search(r"&raft\.NodeInfo\{(.*?)\n\t*\}", body, re.S)
+        if not lit:
+            raise vlib.TieBroken("coordinator.%s no longer builds a raft.NodeInfo literal" % fn)
+        out[fn] = re.findall(r"^\s*(\w+):", lit.group(1), re.M)
+    return out
+
+
 def run(res, tier, seed):
-    lib_fsm.run_property(res, "C23", tier, seed, THEOREMS, MODULES, EXTRA, FAMILIES, 400, 5000, dump_all=True)
+    fields = join_payload_fields()
+    res.cov["params"] = {"join_nodeinfo_fields": fields,
+                         "join_carries_writer_state": {k: "WriterState" in v for k, v in fields.items()}}
+    lib_fsm.JOIN_HAS_WS = "WriterState" in fields["handleJoinRequest"]
+    lib_fsm.run_property(res, "C23", tier, seed, THEOREMS, MODULES, EXTRA, FAMILIES, 330, 5000, dump_all=True)
 
 
 def replay(res, path):
